@@ -402,6 +402,65 @@ def run(ctx):
 
     ctx.section(_sec_shared)
 
+    def _sec_append():
+        # ------------------------------------------------------------------ append
+        # "every listed file is valid Python": a target that is missing from an existing file is APPENDED to it by
+        # cdd.shared.emit.file.file (mode "a"). What is already there need not end in a newline (`OTHER = 1` +
+        # `class K(object):` = `OTHER = 1class K(object):`), so the appended source must start on a line of its own:
+        # the written text is prefixed with a newline (under a test of the mode / of the existing tail) or a newline
+        # is written first.
+        ff = index.func("cdd.shared.emit.file.file")
+        n_w = 0
+        for w in iter_own(ff.node):
+            if not isinstance(w, ast.With):
+                continue
+            for it in w.items:
+                c = it.context_expr
+                if not (isinstance(c, ast.Call) and index.callee(ff.mod, c, ff) in OPEN_NAMES and isinstance(it.optional_vars, ast.Name)):
+                    continue
+                mode = open_mode_arg(c)
+                if isinstance(mode, ast.Constant) and isinstance(mode.value, str) and "a" not in mode.value:
+                    continue  # a fixed non-append mode
+                h = it.optional_vars.id
+                writes = [x for st in w.body for x in ast.walk(st) if isinstance(x, ast.Call) and isinstance(x.func, ast.Attribute) and x.func.attr == "write" and norm(x.func.value) == h and x.args]
+                if not writes:
+                    continue
+                n_w += 1
+                first = writes[0].args[0]
+
+                def nl_const(e):
+                    return isinstance(e, ast.Constant) and isinstance(e.value, str) and e.value.startswith(("\n", "\r"))
+
+                ok = nl_const(first)
+                if not ok and isinstance(first, ast.Name):
+                    for a_ in iter_own(ff.node):
+                        if (
+                            isinstance(a_, ast.Assign)
+                            and a_.lineno < w.lineno
+                            and any(isinstance(t, ast.Name) and t.id == first.id for t in a_.targets)
+                            and isinstance(a_.value, ast.BinOp)
+                            and isinstance(a_.value.op, ast.Add)
+                            and nl_const(a_.value.left)
+                            and norm(a_.value.right) == first.id
+                        ):
+                            ok = True
+                        if isinstance(a_, ast.AugAssign):
+                            pass
+                ctx.ob(
+                    "C12.append",
+                    ff,
+                    "source appended to an existing file starts on a line of its own",
+                    ok,
+                    ""
+                    if ok
+                    else "file() may open `{}` for appending and writes the rendered source straight after whatever is there: an existing "
+                    "file without a final newline (`OTHER = 1`) becomes `OTHER = 1class K(object):` — not valid Python".format(short(c.args[0], 40) if c.args else "the file"),
+                    line=w.lineno,
+                )
+        ctx.floor("writes of emit.file.file that may append", n_w, 1)
+
+    ctx.section(_sec_append)
+
     def _sec_create():
         # ------------------------------------------------------------- create
         # "missing or empty target files are created with that interface": the target is emitted by the emitter handed
